@@ -206,9 +206,14 @@ func solveAll(obs []*Obligation, timeoutS, seed, par int) {
 			if ob.Canary {
 				to = 3
 			}
-			r := solve(script, to, seed, false)
+			// the pruned script first, briefly; then the script with every assumption (relevance pruning may
+			// have dropped a needed one); then the pruned script with the whole budget
+			short := to
+			if ob.Script == "" && !ob.Canary && short > 4 {
+				short = 4
+			}
+			r := solve(script, short, seed, false)
 			if ob.Script == "" && !ob.Canary && r.Verdict != VUnsat {
-				// second attempt with every assumption (relevance pruning may have dropped a needed one)
 				full := ob.fx.scriptForMode(ob, false)
 				if full != script {
 					r2 := solve(full, to, seed, false)
@@ -216,6 +221,11 @@ func solveAll(obs []*Obligation, timeoutS, seed, par int) {
 						r2.Seconds += r.Seconds
 						r = r2
 					}
+				}
+				if r.Verdict == VUnknown && short < to {
+					r3 := solve(script, to, seed, false)
+					r3.Seconds += r.Seconds
+					r = r3
 				}
 			}
 			if !noRetry && !ob.Canary && r.Verdict == VUnknown && ob.Expect == VUnsat {
